@@ -71,3 +71,101 @@ apply_block_mapping_tables = FunctionContract(
 )
 CONTRACTS = [apply_block_mapping_tables]
 LEMMAS = []
+
+
+# ------------------------------------------------------------------ do_mapping: bonds between particles of two placements
+OutI = TInt
+EdgeO = TTuple(TInt, TInt)
+MEdge = TTuple(MolIdx, MolIdx)
+
+
+def setup_edges(cx):
+    eng = cx.eng
+    from pyvc.values import IterV
+    from pyvc.builtins import _int, make_iter
+    EDGES = cx.heap('EDGES', cx.box('EDGES', TSet(EdgeO)))               # graph_out's edges (either orientation)
+    medges = cx.val('medges', TSeq(MEdge))                               # molecule.edges_between(match1, match2)
+    cx.spec_env['medges'] = medges
+    m2o = cx.val('mol_to_out', M2O)
+    n21 = cx.val('none_to_one_mappings', TSet(TInt))
+    molecule = Obj('Molecule', edges_between=Builtin(lambda e, a, b: medges, 'edges_between'))
+
+    def add_edge(e, a, b):
+        EDGES.e = z3.Store(EDGES.e, EdgeO.mk(to_z3(a, TInt), to_z3(b, TInt)), True)
+    graph_out = Obj('Graph', add_edge=Builtin(add_edge, 'graph_out.add_edge'))
+    pa_, pb_ = cx.uf('prod_a', [TInt], TInt), cx.uf('prod_b', [TInt], TInt)
+    pk_ = cx.uf('prod_k', [TInt, TInt], TInt)
+    calls = []
+
+    def product(e, s1, s2):
+        # assumed contract of itertools.product on two sets: every pair (x in s1, y in s2) exactly once.  (One call per
+        # path: the enumeration functions are not indexed by the sets.)
+        if calls and calls[-1] is e.decisions:
+            pass
+        def as_set(v):
+            if isinstance(v, IterV) and getattr(v, 'keys_of', None) is not None:
+                mt = type_of(v.keys_of)
+                return mt.dom(to_z3(v.keys_of))                # a keys view: the set of keys
+            return to_z3(v, TSet(TInt))
+        a, b = as_set(s1), as_set(s2)
+        k, x, y = z3.Ints('pk px py')
+        n = e.fresh(TInt, 'prod_n')
+        e.assume(n >= 0)
+        e.assume(z3.ForAll([k], z3.Implies(z3.And(0 <= k, k < n), z3.And(z3.Select(a, pa_(k)), z3.Select(b, pb_(k)),
+                                                                       pk_(pa_(k), pb_(k)) == k)), patterns=[pa_(k)]))
+        e.assume(z3.ForAll([x, y], z3.Implies(z3.And(z3.Select(a, x), z3.Select(b, y)),
+                                              z3.And(0 <= pk_(x, y), pk_(x, y) < n, pa_(pk_(x, y)) == x, pb_(pk_(x, y)) == y)),
+                           patterns=[pk_(x, y)]))
+        return IterV(n, lambda q: (SV(TInt, pa_(_int(q))), SV(TInt, pb_(_int(q)))))
+    cx.spec_env['product'] = Builtin(product, 'product')
+    ma, mb = Obj('match'), Obj('match')
+    ma.attrs['keys'] = Builtin(lambda e: ma, 'keys')
+    mb.attrs['keys'] = Builtin(lambda e: mb, 'keys')
+    return dict(molecule=molecule, graph_out=graph_out, mol_to_out=m2o, none_to_one_mappings=n21, match1=(ma,), match2=(mb,))
+
+
+SPEC_E = {
+    # the particles an input atom contributes to, except those built from nothing (none-to-one)
+    'O': "lambda m: setof(lambda o: o in mol_to_out[m] and not (o in none_to_one_mappings), TInt)",
+    'has_e': "lambda E, a, b: (a, b) in E or (b, a) in E",
+    'joins': "lambda q, a, b: a in O(medges[q][0]) and b in O(medges[q][1]) and a != b",
+}
+edges_between_placements = FunctionContract(
+    F, 'do_mapping', 'C01', short='do_mapping[bonds between two placements]', setup=setup_edges, spec_defs=SPEC_E,
+    spec_env=dict(MolIdx=MolIdx),
+    region=dict(within=["for match1, match2 in combinations(all_matches, 2):"], start="match1 = match1[0]"),
+    requires=["forall(lambda q: implies(0 <= q and q < len(medges), medges[q][0] in mol_to_out and medges[q][1] in mol_to_out))"],
+    locals=dict(g_q=TMap(EdgeO, TInt)),
+    ghost_at={'entry': "g_q = {}"},
+    ensures=[
+        # for every input bond between the two placements, every particle of the one atom is bonded to every (other)
+        # particle of the other atom ...
+        "forall(lambda q, a, b: implies(0 <= q and q < len(medges) and joins(q, a, b), has_e(EDGES, a, b)))",
+        # ... and no other bond is added; existing bonds are kept
+        "forall(lambda a, b: implies((a, b) in EDGES and not ((a, b) in old(EDGES)), (a, b) in g_q and 0 <= g_q[(a, b)] and "
+        "   g_q[(a, b)] < len(medges) and joins(g_q[(a, b)], a, b)))",
+        "forall(lambda a, b: implies((a, b) in old(EDGES), (a, b) in EDGES))",
+    ],
+    modifies=['EDGES'],
+    loops={
+        'L1': LoopSpec(
+            inv=["forall(lambda q, a, b: implies(0 <= q and q < _i and joins(q, a, b), has_e(EDGES, a, b)))",
+                 "forall(lambda a, b: implies((a, b) in EDGES and not ((a, b) in old(EDGES)), (a, b) in g_q and 0 <= g_q[(a, b)] and "
+                 "   g_q[(a, b)] < _i and joins(g_q[(a, b)], a, b)))",
+                 "forall(lambda a, b: implies((a, b) in old(EDGES), (a, b) in EDGES))"],
+            modifies=['EDGES', 'g_q'], locals=dict(g_q=TMap(EdgeO, TInt)), ghost_pre="g_E = set(EDGES)\ng_q0 = dict(g_q)"),
+        'L1.1': LoopSpec(
+            inv=["forall(lambda x, y: implies(x in out_idxs and y in out_jdxs and prod_k(x, y) < _i and x != y, (x, y) in EDGES))",
+                 "forall(lambda a, b: implies((a, b) in EDGES and not ((a, b) in g_E), (a, b) in g_q and g_q[(a, b)] == _iL1 and "
+                 "   a in out_idxs and b in out_jdxs and a != b))",
+                 "forall(lambda a, b: implies((a, b) in g_E, (a, b) in EDGES and implies((a, b) in g_q0, (a, b) in g_q and g_q[(a, b)] == g_q0[(a, b)])))",
+                 "forall(lambda a, b: implies((a, b) in g_q and not ((a, b) in g_q0), not ((a, b) in g_E)))"],
+            modifies=['EDGES', 'g_q'], locals=dict(g_q=TMap(EdgeO, TInt)),
+            ghost_pre="g_had = (out_idx, out_jdx) in EDGES",
+            ghost_end="if out_idx != out_jdx and not g_had:\n    g_q[(out_idx, out_jdx)] = _iL1"),
+    },
+    canary=[("out_jdxs = mol_to_out[mol_jdx].keys() - none_to_one_mappings", "out_jdxs = mol_to_out[mol_jdx].keys()"),
+            ("if out_idx != out_jdx:", "if True:"),
+            ("graph_out.add_edge(out_idx, out_jdx)", "graph_out.add_edge(out_idx, out_idx)")],
+)
+CONTRACTS.append(edges_between_placements)
